@@ -836,8 +836,15 @@ def run(ctx):
             d['bad'] = True
             d['why'] = 'the client-supplied name has not been checked against the rule table'
             d['ctx'] = e['ctx']
-    ctx.count('rule_table_dereference_sites', len(derefs), 15)
-    ctx.count('dereferencing_policy_methods', len(ai.pol.deref), 1)
+    if ai.pol.deref:
+        ctx.count('rule_table_dereference_sites', len(derefs), 15)
+    else:
+        # no query method dereferences the rule set any more (each tests it for None first): nothing can go wrong at the call sites;
+        # the calls themselves must still have been seen
+        ctx.count('rule_table_dereference_sites', len(derefs), 0)
+        ctx.count('policy_query_calls', len([e for e in ai.events if e['kind'] == 'policy_call']), 15)
+    ctx.count('dereferencing_policy_methods', len(ai.pol.deref), 0)
+    ctx.count('policy_query_methods', len(ai.pol.guard_quality), 5)
     for (fn, meth, arg, root), d in sorted(derefs.items(), key=str):
         site = '%s:%s KmipEngine.%s' % (ENGINE, d['line'], fn)
         if d['bad']:
